@@ -129,6 +129,15 @@ func (a *Analysis) ruleW() {
 	for _, c := range driverCalls {
 		callee := c.Common().StaticCallee()
 		sargs, _ := updateArgs(c)
+		for p, d := range optionParams(c) {
+			if a.genOptParams == nil {
+				a.genOptParams = map[*ssa.Parameter]AV{}
+			}
+			if old, seen := a.genOptParams[p]; seen && old.String() != d.String() {
+				d = TopV{"different options at different call sites"}
+			}
+			a.genOptParams[p] = d
+		}
 		if lk, ok := sargs[1].(*ssa.Lookup); ok && !lk.CommaOk && lk.Index == sargs[0] && loadedGlobal(lk.X) == tableVar {
 			// update(stem, table[stem]): the pair is an entry of the table whatever the stem is
 			upd = callee
@@ -885,9 +894,72 @@ func updateArgs(c ssa.CallInstruction) ([]ssa.Value, bool) {
 		if isContextType(arg.Type()) {
 			continue
 		}
+		if _, isOpt := optionDefault(arg); isOpt {
+			continue // a command-line option: the program is judged at its default (genOptParams)
+		}
 		out = append(out, arg)
 	}
 	return out, true
+}
+
+// optionDefault: v is `*p` with p the result of flag.String / Bool / Int / Int64 / Uint /
+// Duration called with a constant default (a local of main; options kept in package-level
+// variables are read through the evaluation of the generator's initialiser): that default.
+func optionDefault(v ssa.Value) (AV, bool) {
+	ld, ok := v.(*ssa.UnOp)
+	if !ok || ld.Op != token.MUL {
+		return nil, false
+	}
+	call, ok := ld.X.(*ssa.Call)
+	if !ok || len(call.Call.Args) != 3 {
+		return nil, false
+	}
+	// nothing but loads of the pointer (flag.Parse writes it, which is the point)
+	for _, ref := range *call.Referrers() {
+		switch x := ref.(type) {
+		case *ssa.UnOp:
+			if x.Op != token.MUL {
+				return nil, false
+			}
+		case *ssa.DebugRef:
+		default:
+			return nil, false
+		}
+	}
+	def, isC := call.Call.Args[1].(*ssa.Const)
+	if !isC || def.Value == nil {
+		return nil, false
+	}
+	switch calleeName(call) {
+	case "flag.String":
+		if def.Value.Kind() == constant.String {
+			return CStr(constant.StringVal(def.Value)), true
+		}
+	case "flag.Bool":
+		if def.Value.Kind() == constant.Bool {
+			return KBool(constant.BoolVal(def.Value)), true
+		}
+	case "flag.Int", "flag.Int64", "flag.Uint", "flag.Uint64", "flag.Duration":
+		if n, ok := constant.Int64Val(def.Value); ok && def.Value.Kind() == constant.Int {
+			return CInt(n), true
+		}
+	}
+	return nil, false
+}
+
+// optionParams: the parameters of callee that, at call c, receive a command-line option.
+func optionParams(c ssa.CallInstruction) map[*ssa.Parameter]AV {
+	callee := c.Common().StaticCallee()
+	out := map[*ssa.Parameter]AV{}
+	if callee == nil || len(callee.Params) != len(c.Common().Args) {
+		return out
+	}
+	for i, arg := range c.Common().Args {
+		if d, ok := optionDefault(arg); ok {
+			out[callee.Params[i]] = d
+		}
+	}
+	return out
 }
 
 // statusGate: where the generator looks at the status code of the response, an answer of 200
@@ -974,6 +1046,9 @@ func (a *Analysis) ruleW2(upd *ssa.Function) {
 		if isContextType(p.Type()) {
 			continue // a context.Context handed down to the request: no influence on what is written
 		}
+		if _, isOpt := a.genOptParams[p]; isOpt {
+			continue // receives a command-line option: judged at its default (bound below)
+		}
 		sp = append(sp, p)
 	}
 	if len(sp) != 2 {
@@ -982,7 +1057,7 @@ func (a *Analysis) ruleW2(upd *ssa.Function) {
 	}
 	pathP, varP := sp[0], sp[1]
 	a.statusGate(upd)
-	e := a.eval(upd, &Ctx{Name: "generator"})
+	e := a.eval(upd, &Ctx{Name: "generator", ParamVal: a.genOptParams})
 	for _, ev := range e.Events {
 		if ev.Status == Undecided && (ev.Rule == "P5" || ev.Rule == "U" || ev.Rule == "X") {
 			r.Unk("W2", fk+"/evaluation", a.P.InstrPos(ev.Instr), "", "the update function is not fully evaluated: %s", ev.Msg)
@@ -1249,7 +1324,7 @@ func (a *Analysis) ruleW2(upd *ssa.Function) {
 		// or one Write of it to a file opened like the direct form's
 		var wf []CallRec
 		for _, c := range e.Calls {
-			if c.Callee == "os.WriteFile" || c.Callee == "io/ioutil.WriteFile" || c.Callee == "(*os.File).Write" {
+			if c.Callee == "os.WriteFile" || c.Callee == "io/ioutil.WriteFile" || c.Callee == "(*os.File).Write" || c.Callee == "(*bufio.Writer).Write" {
 				wf = append(wf, c)
 			}
 		}
@@ -1267,6 +1342,22 @@ func (a *Analysis) ruleW2(upd *ssa.Function) {
 				r.OK("W2", fk+"/formatted", fp, "", "the rendering goes through go/format.Source before it is written (white space only: trusted)")
 			}
 			writeFileSite = wf[0].Instr
+			if wf[0].Callee == "(*bufio.Writer).Write" {
+				// through a bufio.Writer on the file: it must be flushed before success is reported
+				bwv, ok := wf[0].Args[0].(ResV)
+				if !ok || bwv.Kind != "bufio.Writer" {
+					r.Add("W2", fk+"/output", fp, "", Undecided, "the rendering is written to %v, which is not a bufio.Writer on the output file", wf[0].Args[0])
+					break
+				}
+				f, ok := bwv.A.(ResV)
+				if !ok || f.Kind != "os.File" {
+					r.Add("W2", fk+"/output", fp, "", Undecided, "the rendering is written through a bufio.Writer on %v, which is not a file opened by os.OpenFile/os.Create/os.CreateTemp", bwv.A)
+					break
+				}
+				bw = &bwv
+				checkFile(f)
+				break
+			}
 			if wf[0].Callee == "(*os.File).Write" {
 				f, ok := wf[0].Args[0].(ResV)
 				if !ok || f.Kind != "os.File" {
